@@ -1844,7 +1844,17 @@ func (b *Block) setExportedVars() (err error) {
 		return fmt.Errorf("number of labels (%d) exceeds what can be contained in max block size %d", numLabels, MaxBlockSize)
 	}
 
-	b.Labels, err = dvid.AliasByteToUint64(b.data[16 : 16+numLabels*8])
+	if numSubBlocks == 0 {
+		return fmt.Errorf("block has %d x %d x %d sub-blocks, which is not allowed", gx, gy, gz)
+	}
+	// all section sizes are derived from counts inside the data, so check each against what was actually received
+	nbytes := uint64(len(b.data))
+	pos := uint64(16) + uint64(numLabels)*8
+	if pos > nbytes {
+		return fmt.Errorf("block of %d bytes too short for its %d labels", nbytes, numLabels)
+	}
+
+	b.Labels, err = dvid.AliasByteToUint64(b.data[16:pos])
 	if err != nil {
 		return
 	}
@@ -1856,26 +1866,40 @@ func (b *Block) setExportedVars() (err error) {
 		return
 	}
 
-	pos := uint32(16)
-	pos += numLabels * 8
-	nbytes := numSubBlocks * 2
-	b.NumSBLabels, err = dvid.AliasByteToUint16(b.data[pos : pos+nbytes])
+	if pos+uint64(numSubBlocks)*2 > nbytes {
+		return fmt.Errorf("block of %d bytes too short for label counts of its %d sub-blocks", nbytes, numSubBlocks)
+	}
+	b.NumSBLabels, err = dvid.AliasByteToUint16(b.data[pos : pos+uint64(numSubBlocks)*2])
 	if err != nil {
 		return
 	}
-	var numSubBlockIndices uint32
+	var numSubBlockIndices, numValueBytes uint64
 	for _, num := range b.NumSBLabels {
-		numSubBlockIndices += uint32(num)
+		if num > SubBlockSize*SubBlockSize*SubBlockSize {
+			return fmt.Errorf("sub-block has %d labels, more than its number of voxels", num)
+		}
+		numSubBlockIndices += uint64(num)
+		numValueBytes += (uint64(bitsFor(num))*SubBlockSize*SubBlockSize*SubBlockSize + 7) / 8
 	}
 
-	pos += nbytes
-	subBlockIndexBytes := numSubBlockIndices * 4
-	b.SBIndices, err = dvid.AliasByteToUint32(b.data[pos : pos+subBlockIndexBytes])
-	if err != nil {
-		return
+	pos += uint64(numSubBlocks) * 2
+	if pos+numSubBlockIndices*4+numValueBytes > nbytes {
+		return fmt.Errorf("block of %d bytes too short for its %d sub-block indices and %d bytes of voxel values", nbytes, numSubBlockIndices, numValueBytes)
+	}
+	b.SBIndices = nil
+	if numSubBlockIndices > 0 {
+		b.SBIndices, err = dvid.AliasByteToUint32(b.data[pos : pos+numSubBlockIndices*4])
+		if err != nil {
+			return
+		}
+	}
+	for _, index := range b.SBIndices {
+		if index >= numLabels {
+			return fmt.Errorf("sub-block label index %d is outside the block's %d labels", index, numLabels)
+		}
 	}
 
-	pos += subBlockIndexBytes
+	pos += numSubBlockIndices * 4
 	b.SBValues = b.data[pos:]
 	return
 }
